@@ -55,7 +55,9 @@ impl SRAT {
 
     fn update_header(&mut self, len: u32, sum: u8) {
         let old_len = self.header.length.get();
-        let new_len = len + old_len;
+        let new_len = old_len
+            .checked_add(len)
+            .expect("table length overflows the 32-bit Length field");
         self.header.length.set(new_len);
 
         // Remove the bytes from the old length, add the new length
